@@ -347,7 +347,20 @@ def check_roundtrip(session, image, path, ctx):
     # (b) the real reader
     try:
         r = GroFile(path)
-        got = r.readlines()
+        how = len(recs) % 3
+        if how == 0:
+            got = r.readlines()
+        elif how == 1:
+            got = [line for line in r]
+        else:
+            got = []
+            for _ in range(r.natoms):
+                got.append(next(r))
+            # random access must agree with sequential reading
+            k = (len(recs) * 7) % len(recs)
+            r.seek_atom(k)
+            if tuple(next(r)) != tuple(got[k]):
+                ctx.violate(P, "random-access", f"seek_atom({k}) + next returned another record than sequential reading")
         natoms = r.natoms
         box = np.array(r.box_matrix, dtype=float)
         comment = r.comment
